@@ -136,11 +136,16 @@ def ds_flow(fn):
 
 def generate(repo):
     tree = ast.parse(open(f"{repo}/{SRC}").read())
+    # results that are labelled already (var_names=None) are joined by multi_concat: outer alignment on their
+    # internal coordinates, one concat per swept argument; pinned
+    from . import pins
+    pins.check(repo, SRC, ["multi_concat", "get_ndim_first"])
     zipped, steps, fallback = df_flow(find_function(tree, "results_to_df"))
     counted, order, args_first, zip_names, copied, rule, target = ds_flow(find_function(tree, "results_to_ds"))
     return "\n".join([
         "(* GENERATED by harness/translator/gen_label.py from xyzpy/gen/combo_runner.py -- do not edit *)",
         "From XV Require Import Prelude Label LabelFlow.", "",
+        "Definition gen_multi_concat_is_pinned : bool := true.", "",
         "Definition gen_label_flow : label_flow :=",
         f"  mk_label_flow {zipped} [{'; '.join(steps)}] {fallback} {counted} [{'; '.join(order)}] {args_first} "
         f"{zip_names} {copied} {rule} {target}.", ""])
